@@ -208,8 +208,13 @@ def build_verbatim_case(body, is_env, name, framed, star, delim, ctx, tail, pre)
         return case
     replaced = 0
     if not star:
-        if K_VERB_SPECIAL in KNOWN and (delim in VERB_SPECIAL_DELIMS or (delim == "^" and body == "")):
-            delim, replaced = "+", 1      # "\\verb^^" + next character is read as a ^^-pair: same root cause
+        if delim == "^" and body == "":
+            # outside the domain: "\\verb^^" + next character is a ^^-pair for TeX's own reader as well
+            # (tex.web 355 reduces it while it looks for the end of the name \\verb), so the delimiter
+            # LaTeX sees is not ^
+            delim = "+"
+        if K_VERB_SPECIAL in KNOWN and delim in VERB_SPECIAL_DELIMS:
+            delim, replaced = "+", 1
         if K_VERB_PERCENT in KNOWN and delim == VERB_PERCENT:
             delim, replaced = "!", 1
     sub = "x" if delim != "x" else "y"
@@ -289,6 +294,8 @@ def check_verbatim(case):
         if len(d) != 1 or d.isalpha() or d in " \n\\{}" or (d == "*" and not case["star"]) \
                 or d in body or "\n" in body:
             return skip("outside-domain:verb-delimiter", feats)
+        if d == "^" and body == "" and not case["star"]:
+            return skip("outside-domain:verb-caret-pair", feats)
     source = verbatim_source(case)
     _reset_process_state()
     doc, err = call_real(_parse, source)
@@ -296,7 +303,7 @@ def check_verbatim(case):
 
     def keyfor(base):
         if case["kind"] == "verb" and not case["star"]:
-            if case["delim"] in VERB_SPECIAL_DELIMS or (case["delim"] == "^" and body == ""):
+            if case["delim"] in VERB_SPECIAL_DELIMS:
                 return K_VERB_SPECIAL
             if case["delim"] == "%":
                 return K_VERB_PERCENT
